@@ -24,6 +24,8 @@ pub trait Scalar: MomTropFloat + Copy + 'static {
     fn rat(n: i64, d: i64) -> Self;
     /// literal f64
     fn lit(v: f64) -> Self;
+    /// exact rational constant (rounded natively)
+    fn big(r: &num::rational::BigRational) -> Self;
     fn sym_id(&self) -> Option<u32>;
     fn as_f64(&self) -> Option<f64>;
     /// values handed to a `Logger::write` call: node ids narrowed by to_f64 (Sym) / the numbers (f64)
@@ -70,6 +72,9 @@ impl Scalar for Sym {
     }
     fn lit(v: f64) -> Self {
         sym::kf(v)
+    }
+    fn big(r: &num::rational::BigRational) -> Self {
+        sym::konst(r.clone())
     }
     fn sym_id(&self) -> Option<u32> {
         Some(self.0)
@@ -145,6 +150,9 @@ impl Scalar for f64 {
     }
     fn lit(v: f64) -> Self {
         v
+    }
+    fn big(r: &num::rational::BigRational) -> Self {
+        num::ToPrimitive::to_f64(r).unwrap()
     }
     fn sym_id(&self) -> Option<u32> {
         None
